@@ -64,7 +64,7 @@ def gen_haplotypes(rng, n, ploidy, het_prob=0.8):
     return haps
 
 
-def gen_phase_sets(rng, variants, haps, style):
+def gen_phase_sets(rng, variants, haps, style, hom_phased=False):
     """per variant: phase set id or None.  Only heterozygous variants are phased."""
     ploidy = len(haps)
     out = [None] * len(variants)
@@ -73,6 +73,8 @@ def gen_phase_sets(rng, variants, haps, style):
     for i, v in enumerate(variants):
         col = [haps[h][i] for h in range(ploidy)]
         if len(set(col)) == 1:
+            if hom_phased and cur is not None and rng.random() < 0.5:
+                out[i] = cur              # HP encoding only: a homozygous call that carries an HP entry
             continue
         if rng.random() < 0.1:
             continue                      # heterozygous but left unphased
@@ -109,7 +111,7 @@ def gen_case(rng, size=1.0, force=None):
         variants[name] = [{"pos": v.pos, "ref": v.ref, "alt": v.alt} for v in vs]
         for s in vcf_samples:
             haps = gen_haplotypes(rng, len(vs), ploidy)
-            ps = gen_phase_sets(rng, variants[name], haps, ps_style)
+            ps = gen_phase_sets(rng, variants[name], haps, ps_style, hom_phased=(encoding == "HP"))
             phasing[s][name] = {"haps": haps, "ps": ps}
     # a contig of the BAM header without reads (may be missing from the VCF header: allowed)
     extra_contig = rng.random() < 0.2
@@ -214,9 +216,9 @@ def gen_case(rng, size=1.0, force=None):
                     f1 |= FLAG_MREV if rev2 else 0
                     f2 = flag | FLAG_PAIRED | FLAG_PROPER | FLAG_R2 | (FLAG_REV if rev2 else 0) | (FLAG_MREV if rev_first else 0)
                     a1 = mk(st, rl, alleles, f1, mapq, other)
-                    st2 = max(0, min(L - 30, st + rng.randrange(-40, rl + 150)))
+                    st2 = max(0, min(L - 30, st + (rng.randrange(-40, 60) if same_strand else rng.randrange(-40, rl + 150))))
                     alleles2 = alleles
-                    if rng.random() < 0.25 and vs:      # the mates disagree somewhere
+                    if rng.random() < (0.6 if same_strand else 0.25) and vs:      # the mates disagree somewhere
                         alleles2 = [1 - a if rng.random() < 0.3 else a for a in alleles]
                     mapq2 = mapq if rng.random() < 0.8 else rng.randrange(0, 20)
                     a2 = mk(st2, rng.randrange(60, 300), alleles2, f2, mapq2, other[:1])
